@@ -137,7 +137,9 @@ static int decodeInt(const std::string& bytes) {
   if (bytes.empty()) return 0;
   return (unsigned char)bytes.back();
 }
+static bool gNoSig = false;   // C20: the C interface cannot express a rule signature
 static uint64_t ruleSignature(const RuleSpec& r) {
+  if (gNoSig) return 0;
   if (!r.defined) return 7;
   return r.leaf ? 11 : (uint64_t)r.ver * 1000003ULL + 13;
 }
@@ -913,6 +915,7 @@ int main(int argc, char** argv) {
       sim.front = opt(t, "front", sim.front);
       sim.dumpAfterBuild = opt(t, "dump", sim.dumpAfterBuild ? "1" : "0") == "1";
       gFlush = opt(t, "flush", gFlush ? "1" : "0") == "1";
+      gNoSig = opt(t, "nosig", gNoSig ? "1" : "0") == "1";
       sim.clientVersion = (uint32_t)strtoul(opt(t, "client", "1").c_str(), nullptr, 10);
     } else if (op == "leaf") {
       RuleSpec r;
